@@ -47,6 +47,17 @@ Theorem C18_unit_mul_f64_of_int : forall u k, Z.abs (k * spec_unit_factor u) < 2
   unit_mul_f64 u (f_of_Z k) = unit_mul_i64 u k.
 Proof. exact unit_mul_f64_of_int. Qed.
 
+(* general form: whenever the real product is an integer that is itself a double (below 2^126), it is returned, clamped;
+   in particular whole days up to 18 600 years (d * 86 400 * 10^9 = d * 1318359375 * 2^16) *)
+Theorem C18_unit_mul_f64_exact_repr : forall u q n,
+  is_finite q = true -> (B2R q * IZR (spec_unit_factor u) = IZR n)%R ->
+  generic_format radix2 (SpecFloat.fexp 53 1024) (IZR n) -> Z.abs n < 2 ^ 126 ->
+  canon (unit_mul_f64 u q) /\ val (unit_mul_f64 u q) = clamp n.
+Proof. exact unit_mul_f64_exact_repr. Qed.
+Theorem C18_unit_mul_f64_whole_days : forall q d, is_finite q = true -> B2R q = IZR d -> Z.abs d <= 6800000 ->
+  unit_mul_f64 Day q = unit_mul_i64 Day d.
+Proof. exact unit_mul_f64_whole_days. Qed.
+
 Example C18_nonvacuous :
   dur_mul_f64 (mkD 0 1000000000) 9223372036854775808 = D_ZERO /\           (* 1 s * -0.0 *)
   dur_mul_f64 (mkD 0 1000000000) 9264247303385390121 = mkD 0 0 /\           (* 1 s * -1e-300: terminates, 0 *)
